@@ -80,7 +80,7 @@ end
 /-- A block of a getter that assigns cache attributes. -/
 structure Site where
   guarded : Bool        -- runs only when a guard attribute is empty (else: on every call)
-  guard : List Nat      -- attributes tested by the guard
+  guard : List Nat      -- attributes tested by the guard (`self._x is None` / `not self._x`)
   slots : List Nat      -- attributes it fills
   expr : Nat            -- id of its defining code
   reads : List Nat      -- every attribute its code reads (transitively)
@@ -92,6 +92,9 @@ structure Getter where
   sites : List Site
   direct : List Nat     -- attributes the getter's own code loads
   clears : List Nat     -- attributes the getter sets to None on every call
+  /-- (slot, expression): value-dependent rewrites of a slot by the getter itself
+  (e.g. `SQLiteResult.reporting_frequency` turning the cached text into the number of steps). -/
+  refines : List (Nat × Nat) := []
   deriving Repr, DecidableEq
 
 structure Setter where
@@ -104,18 +107,10 @@ structure ClassTable where
   name : String
   attrs : List String
   init : List Nat
+  shared : List Nat := []   -- class-level attributes (one object shared by all instances)
   getters : List Getter
   setters : List Setter
   deriving Repr
-
-namespace ClassTable
-
-def slots (t : ClassTable) : List Nat :=
-  (t.getters.flatMap fun g => g.sites.flatMap (·.slots)).eraseDups
-
-def isSlot (t : ClassTable) (a : Nat) : Bool := t.slots.contains a
-
-end ClassTable
 
 namespace Getter
 
@@ -125,56 +120,85 @@ def ownSlots (g : Getter) : List Nat := g.sites.flatMap (·.slots)
 def defOf (g : Getter) (a : Nat) : Option Nat :=
   (g.sites.reverse.find? (·.slots.contains a)).map (·.expr)
 
-/-- Every expression the getter itself may put into slot `a` (a getter may refine a slot in a
-second, value-dependent step, e.g. `SQLiteResult.reporting_frequency`). -/
+/-- Every expression the getter itself may put into slot `a`. -/
 def ownExprs (g : Getter) (a : Nat) : List Nat :=
-  (g.sites.filter (·.slots.contains a)).map (·.expr)
-
-/-- Slots the getter looks at directly, with the expression it defines them by. -/
-def defs (t : ClassTable) (g : Getter) : List (Nat × Nat) :=
-  g.direct.filterMap fun a => if t.isSlot a then (g.defOf a).map (a, ·) else none
+  (g.sites.filter (·.slots.contains a)).map (·.expr) ++ (g.refines.filter (·.1 == a)).map (·.2)
 
 end Getter
 
 namespace ClassTable
 
-/-- T1 one slot – one defining expression: two getters that look at the same slot define it
-by the same code. -/
+def allSites (t : ClassTable) : List Site := t.getters.flatMap (·.sites)
+
+def allRefines (t : ClassTable) : List (Nat × Nat) := t.getters.flatMap (·.refines)
+
+/-- An attribute is a cache slot when some getter block fills it. -/
+def isSlot (t : ClassTable) (a : Nat) : Bool :=
+  t.allSites.any (·.slots.contains a) || t.allRefines.any (·.1 == a)
+
+/-- T1 one slot – one defining expression: whatever any getter block may put into a slot is an
+expression that every getter looking at that slot defines it by itself. -/
 def oneExpr (t : ClassTable) : Bool :=
-  t.getters.all fun g1 => t.getters.all fun g2 =>
-    (g1.defs t).all fun p1 => (g2.defs t).all fun p2 => p1.1 != p2.1 || p1.2 == p2.2
+  decide (∀ g ∈ t.getters, ∀ a ∈ g.direct, t.isSlot a = true →
+    (∀ s ∈ t.allSites, a ∈ s.slots → s.expr ∈ g.ownExprs a) ∧
+    (∀ r ∈ t.allRefines, r.1 = a → r.2 ∈ g.ownExprs a))
 
 /-- T2 a getter fills every slot it looks at itself (no result that exists only as a side
 effect of another getter). -/
 def selfFill (t : ClassTable) : Bool :=
-  t.getters.all fun g => g.direct.all fun a => !t.isSlot a || g.ownSlots.contains a
+  decide (∀ g ∈ t.getters, ∀ a ∈ g.direct, t.isSlot a = true → a ∈ g.ownSlots)
 
-/-- T3 a guard tests a slot that the guarded block fills. -/
+/-- T3 a guard is not empty and tests slots that the guarded block fills. -/
 def guardOwn (t : ClassTable) : Bool :=
-  t.getters.all fun g => g.sites.all fun s => s.guard.all fun a => s.slots.contains a
+  decide (∀ s ∈ t.allSites, s.guard ≠ [] ∧ ∀ b ∈ s.guard, b ∈ s.slots)
 
-/-- T4 a setter that writes an attribute read by a cached (guarded) block clears or rewrites every
+/-- T4 a setter that writes an attribute read by a cached block clears or rewrites every
 slot of that block. -/
 def resetsOk (t : ClassTable) : Bool :=
-  t.setters.all fun s => t.getters.all fun g => g.sites.all fun st =>
-    !st.guarded || !(st.reads.any fun a => s.writes.contains a) ||
-      st.slots.all fun a => s.clears.contains a || s.writes.contains a
+  decide (∀ st ∈ t.setters, ∀ s ∈ t.allSites, (∃ r ∈ s.reads, r ∈ st.writes) →
+    ∀ a ∈ s.slots, a ∈ st.clears ∨ a ∈ st.writes)
 
-/-- T5 every attribute a getter tests or loads exists after `__init__`. -/
+/-- T5 every attribute a getter tests or loads exists after `__init__` (or at class level), and no
+cache slot is a class-level attribute (that would be shared between instances). -/
 def initOk (t : ClassTable) : Bool :=
-  t.getters.all fun g =>
-    (g.direct.all fun a => t.init.contains a) &&
-    (g.sites.all fun s => s.guard.all fun a => t.init.contains a)
+  (t.getters.all fun g =>
+    (g.direct.all fun a => t.init.contains a || t.shared.contains a) &&
+    (g.sites.all fun s => s.guard.all fun a => t.init.contains a)) &&
+  (t.allSites.all fun s => s.slots.all fun a => !t.shared.contains a)
+
+/-- T6 every cache-filling block is guarded by an emptiness test, and does not set other
+attributes to None. -/
+def allGuarded (t : ClassTable) : Bool :=
+  decide (∀ s ∈ t.allSites, s.guarded = true ∧ s.clears = [])
+
+/-- T7 blocks that share a guard attribute fill the same group of slots: if a guard attribute of
+block `s'` is filled by block `s`, then `s` fills everything `s'` fills. -/
+def groupClosed (t : ClassTable) : Bool :=
+  decide (∀ s ∈ t.allSites, ∀ s' ∈ t.allSites, (∃ b ∈ s'.guard, b ∈ s.slots) → ∀ a ∈ s'.slots, a ∈ s.slots)
+
+/-- T8 a setter that clears or rewrites a slot of a block either clears one of the block's guard
+attributes (so the block runs again) or rewrites all of the block's slots. -/
+def putWhole (t : ClassTable) : Bool :=
+  decide (∀ st ∈ t.setters, ∀ s ∈ t.allSites,
+    (∀ a ∈ s.slots, a ∉ st.clears ∧ a ∉ st.writes) ∨
+    (∃ b ∈ s.guard, b ∈ st.clears ∧ b ∉ st.writes) ∨
+    (∀ a ∈ s.slots, a ∈ st.writes))
+
+/-- T9 a getter that sets a slot of a block to None on every call also clears one of the block's
+guard attributes. -/
+def getClearsWhole (t : ClassTable) : Bool :=
+  decide (∀ g ∈ t.getters, ∀ s ∈ t.allSites, (∃ a ∈ s.slots, a ∈ g.clears) → ∃ b ∈ s.guard, b ∈ g.clears)
 
 def wellFormed (t : ClassTable) : Bool :=
-  t.oneExpr && t.selfFill && t.guardOwn && t.resetsOk && t.initOk
+  t.oneExpr && t.selfFill && t.guardOwn && t.resetsOk && t.initOk && t.allGuarded && t.groupClosed &&
+    t.putWhole && t.getClearsWhole
 
 end ClassTable
 
 /-! ### the table machine -/
 
-/-- A cache entry: which expression was evaluated, and which setter calls (by index) it has
-*missed* since (a setter that wrote an attribute the expression reads without clearing the slot). -/
+/-- A cache entry: which expression was evaluated, what it read, whether a setter has since
+written something it read without clearing it (`stale`), or the value was assigned by a setter. -/
 structure Entry where
   expr : Nat
   reads : List Nat
@@ -183,7 +207,7 @@ structure Entry where
   deriving Repr, DecidableEq
 
 structure TState where
-  cache : List (Nat × Entry)     -- association list, at most one entry per attribute
+  cache : List (Nat × Entry)     -- association list
   deriving Repr
 
 inductive Verdict where
@@ -216,16 +240,16 @@ def runSite (st : TState) (s : Site) : TState :=
     (st.erase s.clears).fill s.slots ⟨s.expr, s.reads, dirty, false⟩
   else st
 
+def verdictAt (t : ClassTable) (g : Getter) (st : TState) (a : Nat) : Verdict :=
+  match st.lookup a with
+  | Option.none => if t.init.contains a then Verdict.none else Verdict.unset
+  | some e =>
+    if e.user then Verdict.ok
+    else if !(g.ownExprs a).contains e.expr then Verdict.alias e.expr
+    else if e.stale then Verdict.stale else Verdict.ok
+
 def verdictOf (t : ClassTable) (g : Getter) (st : TState) : Verdict :=
-  let vs := g.direct.filterMap fun a =>
-    if !t.isSlot a then Option.none
-    else some <|
-      match st.lookup a with
-      | Option.none => if t.init.contains a then Verdict.none else Verdict.unset
-      | some e =>
-        if e.user then Verdict.ok
-        else if !(g.ownExprs a).contains e.expr then Verdict.alias e.expr
-        else if e.stale then Verdict.stale else Verdict.ok
+  let vs := (g.direct.filter t.isSlot).map (verdictAt t g st)
   match vs.find? (· != Verdict.ok) with
   | some v => v
   | Option.none => Verdict.ok
@@ -234,10 +258,12 @@ def stepGet (t : ClassTable) (g : Getter) (st : TState) : Verdict × TState :=
   let st1 := g.sites.foldl runSite (st.erase g.clears)
   (verdictOf t g st1, st1)
 
+def markStale (s : Setter) (p : Nat × Entry) : Nat × Entry :=
+  if p.2.reads.any fun a => s.writes.contains a then (p.1, { p.2 with stale := true }) else p
+
 def stepPut (t : ClassTable) (s : Setter) (st : TState) : TState :=
   let st1 := st.erase (s.clears ++ s.writes)
-  let marked : TState := ⟨st1.cache.map fun p =>
-    if p.2.reads.any fun a => s.writes.contains a then (p.1, { p.2 with stale := true }) else p⟩
+  let marked : TState := ⟨st1.cache.map (markStale s)⟩
   -- a written attribute that getters treat as a slot now holds the user's value
   marked.fill (s.writes.filter t.isSlot) ⟨0, [], false, true⟩
 
@@ -251,5 +277,32 @@ def runT (t : ClassTable) : TState → List TOp → List Verdict
     match t.setters[si]? with
     | some s => runT t (stepPut t s st) ops
     | Option.none => runT t st ops
+
+/-! ### the memo object denoted by a table
+
+Configuration = a version counter per attribute (a setter call bumps the attributes it writes);
+the value of slot `a` = (defining expression of the block that fills `a`, the versions of everything
+that block reads); a setter clears what it clears or rewrites.  This connects the tables with the
+generic theorems of part (a). -/
+
+namespace ClassTable
+
+/-- The table restricted to reads (no setter is ever called). -/
+def readOnly (t : ClassTable) : ClassTable := { t with setters := [] }
+
+def siteOf (t : ClassTable) (a : Nat) : Option Site := t.allSites.find? (·.slots.contains a)
+
+def denote (t : ClassTable) : Spec (Nat → Nat) Nat (Nat × List (Nat × Nat)) Nat Unit where
+  f a c := match t.siteOf a with
+    | some s => (s.expr, s.reads.map fun r => (r, c r))
+    | Option.none => (0, [])
+  upd k _ c := match t.setters[k]? with
+    | some st => fun r => if st.writes.contains r then c r + 1 else c r
+    | Option.none => c
+  resets k := match t.setters[k]? with
+    | some st => st.clears ++ st.writes
+    | Option.none => []
+
+end ClassTable
 
 end Lazy
